@@ -52,11 +52,22 @@ MODES = ("construct-only", "compute-only", "both", "changed")
 
 
 SIG_UNIFY_DRIFT = "unify-policy-drift"
+DRIFT_CONSUMERS = ("broadcast_to", "reshape", "repeat", "tile")
 NO_SHRINK = ("swv-layout-drift", "reshape-int-slice-pushdown")
 
 
 def unify_setting(pt):
     return (pt.get("array.unify-chunks-policy", "auto"), pt.get("array.unify-chunks-limit", "512 MiB"))
+
+
+def unify_drift(prog, unify_settings):
+    """≥ 2 different (unify policy, limit) settings were in force between construction and materialization, and
+    the program has a consumer that embeds its child's ADVERTISED chunks (broadcast_to, reshape, repeat, tile) above an
+    elemwise op"""
+    if len(set(unify_settings)) < 2:
+        return False
+    anc = programs.prog_ancestry(prog)
+    return any(st["op"] in DRIFT_CONSUMERS and (set(programs.BINARY) & anc.get(st["args"][0], set())) for st in prog)
 
 
 def classify(prog, msg, unify_settings=()):
@@ -67,7 +78,7 @@ def classify(prog, msg, unify_settings=()):
     k = programs.classify_known(prog, msg)
     if k:
         return k
-    if len(set(unify_settings)) >= 2 and "Missing dependency" in msg and any(st["op"] in programs.BINARY for st in prog):
+    if unify_drift(prog, unify_settings) and msg.startswith("ValueError"):
         return SIG_UNIFY_DRIFT
     if "IndexError: tuple index out of range" in msg:
         anc = programs.prog_ancestry(prog)
@@ -359,7 +370,7 @@ def _run_steps(ctx, case, fails, disag, count, monitor, cleared):
                     if count:
                         ctx.count(("hist", act, st[2], bool(cur_cfg), len(progs)))
                     if not same(got, npenvs[i][var]):
-                        fails.append((f"history:value-mismatch", f"step {si} compute prog {i} var {var} under {cur_cfg}: {show(got)} expected {show(npenvs[i][var])}", si))
+                        fails.append((SIG_UNIFY_DRIFT if unify_drift(progs[i], useen) else "history:value-mismatch", f"step {si} compute prog {i} var {var} under {cur_cfg}: {show(got)} expected {show(npenvs[i][var])}", si))
                 elif act == "persist":
                     persisted[i] = envs[i][root].persist(scheduler="sync")
                 elif act == "derived":
@@ -368,7 +379,7 @@ def _run_steps(ctx, case, fails, disag, count, monitor, cleared):
                     if count:
                         ctx.count(("hist", act, i in persisted, bool(cur_cfg)))
                     if not same(got, npenvs[i][root] * 2 + 1):
-                        fails.append(("history:derived-value-mismatch", f"step {si} (x*2+1) over {'persisted ' if i in persisted else ''}prog {i} under {cur_cfg}: {show(got)} expected {show(npenvs[i][root] * 2 + 1)}", si))
+                        fails.append((SIG_UNIFY_DRIFT if unify_drift(progs[i], useen) else "history:derived-value-mismatch", f"step {si} (x*2+1) over {'persisted ' if i in persisted else ''}prog {i} under {cur_cfg}: {show(got)} expected {show(npenvs[i][root] * 2 + 1)}", si))
                 elif act == "drop":
                     envs.pop(i, None)
                     persisted.pop(i, None)
@@ -485,7 +496,7 @@ def run_config_case(ctx, case, count=True):
         if count:
             ctx.count(("cfg", mode, label, tuple(sorted(pt1)), tuple(sorted(pt2))))
         if not same(got, w):
-            fails.append((f"config:value-mismatch", f"{mode}/{label}: {show(got)} expected {show(w)} (pt1={pt1} pt2={pt2} pt3={pt3})"))
+            fails.append((SIG_UNIFY_DRIFT if unify_drift(prog, useen) else "config:value-mismatch", f"{mode}/{label}: {show(got)} expected {show(w)} (pt1={pt1} pt2={pt2} pt3={pt3})"))
 
     with warnings.catch_warnings():
         warnings.simplefilter("ignore")
